@@ -13,6 +13,7 @@ void sched_set_budget(uint64_t steps);                 // progress budget per se
 // current thread still enabled?) -> id of the thread to run; random perturbations (holds, spurious wake-ups, timeouts) are off
 void sched_set_chooser(int (*fn)(int ncand, const int * cand_ids, int current_id, int current_enabled));
 void sched_set_spurious(int permille);                 // spurious condition-variable wake-ups
+void sched_set_wake_delay(int on);                    // woken waiters may be slow to get going (default on)
 void sched_set_timeouts(int permille);                 // timed waits time out at arbitrary scheduling points (virtual time)
 void sched_replay(const uint8_t * seq, size_t n);      // force this schedule in the next session
 const uint8_t * sched_log(size_t * n);                 // schedule of the last/current session (chosen thread ids)
